@@ -257,7 +257,14 @@ def step (st : St) (w : List String) : St × String :=
   | ["svz", v1, v2, z1, z2] =>
     match unhexS v1, unhexS v2, z1.toInt?, z2.toInt? with
     | some v1, some v2, some z1, some z2 =>
-      (st, "ok " ++ hexS (getView (setView (setView [] v1) v2)) ++ " " ++ toString (getZoom (setZoom (setZoom 0 z1) z2)))
+      let s0 : List Char × Int := ([], 0)
+      let (s1, e1) := match setSheetViewVZ s0 v1 z1 with
+        | some s => (s, false)
+        | none => (s0, true)
+      let (s2, e2) := match setSheetViewVZ s1 v2 z2 with
+        | some s => (s, false)
+        | none => (s1, true)
+      (st, (if e1 then "E_V1 " else "ok ") ++ (if e2 then "E_V2 " else "ok ") ++ hexS (getView s2.1) ++ " " ++ toString (getZoom s2.2))
     | _, _, _, _ => (st, "bad-op")
   | ["fpn", a, b] =>
     match a.toNat?, b.toNat? with
